@@ -65,7 +65,7 @@ def parse_impl_run(payload):
     if t[0] in ("TIMEOUT", "ABORT"):
         return ("died", payload)
     if t[0] == "OKNOEXEC":
-        return ("noexec", int(t[1]))
+        return ("noexec", int(t[1]), unhexs(t[2]) if len(t) > 2 else None)
     if t[0] == "OK":
         return ("ok", parse_final(t[1:]))
     return ("bad", payload[:200])
